@@ -143,7 +143,7 @@ def score (e : Elem) : Nat := e.p0 + e.p1 + e.p2
 def combPass (a : Array (Nat × Elem)) (gap : Nat) : Array (Nat × Elem) × Bool :=
   (List.range (a.size - gap)).foldl (fun (st : Array (Nat × Elem) × Bool) j =>
     match st.1[j]?, st.1[j + gap]? with
-    | some x, some y => if x.1 > y.1 then ((st.1.setIfInBounds j y).setIfInBounds (j + gap) x, true) else st
+    | some x, some y => if x.1 > y.1 then (st.1.swapIfInBounds j (j + gap), true) else st
     | _, _ => st) (a, false)
 
 def nextGap (gap : Nat) : Nat :=
